@@ -430,7 +430,13 @@ func checkC02() fw.Check {
 						continue
 					}
 					for wi, w := range wins {
-						for bi, b := range bases {
+						bs := bases
+						if v.Proto == "sack" && wi == 0 {
+							// a connection whose SYN is acknowledged with 0 (initial sequence number 2^32-1): every value of the
+							// 32-bit space is an ordinary sequence number, 0 included
+							bs = append(append([]base{}, bs...), basesThorough[2])
+						}
+						for bi, b := range bs {
 							_, _ = wi, bi
 							v, fm, w, b := v, fm, w, b
 							id := fmt.Sprintf("C02/%s/%s/%d-%d/%s", v.Name, fm.name, w.first, w.last, b.name)
